@@ -276,6 +276,8 @@ impl HashColumn {
 		let (mut entry, mut sub_index) = index.get(key, 0, log)?;
 		while !entry.is_empty() {
 			let address = entry.address(index.id.index_bits());
+			#[cfg(parity_db_verif)]
+			crate::verif::yield_point(crate::verif::SITE_GET_VALUE_LOOKUP);
 			let value = Column::get_value(
 				TableKeyQuery::Check(&TableKey::Partial(*key)),
 				address,
